@@ -42,6 +42,7 @@ extern int g_samples;
 extern double g_deadline; extern bool g_capped;
 extern std::string g_tier; extern int g_part, g_nparts;
 extern std::map<std::string, unsigned long long> g_outcomes;
+extern std::string g_align_note;
 inline bool thorough() { return g_tier == "thorough"; }
 inline void outcome(const std::string &s) { g_outcomes[s]++; }
 
@@ -69,7 +70,7 @@ inline std::string operator+(const char *a, const ShowIn &b) { return a + b.str(
 inline void viol(const std::string &sig, const std::string &repr) {
   C.violations++;
   unsigned &n = g_sig_count[sig];
-  if (++n <= 3) printf("@VIOL sig=%s :: %s\n", sig.c_str(), repr.c_str());
+  if (++n <= 3) printf("@VIOL sig=%s :: %s%s\n", sig.c_str(), repr.c_str(), g_align_note.c_str());
 }
 inline void sample(const std::string &s) { if (g_samples < 4) { g_samples++; printf("@SAMPLE %s\n", s.c_str()); } }
 inline void sample_force(const std::string &s) { printf("@SAMPLE %s\n", s.c_str()); }
@@ -97,16 +98,27 @@ inline void finish_stats(const char *name) {
 }
 
 // ---------------------------------------------------------------- exactly-sized heap blocks
-// new uint8_t[n] of exactly n bytes: the byte after the block is an ASan red zone, so a 1-byte
-// overrun (read or write) is reported.  n == 0 is a valid zero-length block: any access reports.
+// new uint8_t[off + n], used from byte `off`: the byte after the block is an ASan red zone, so a 1-byte overrun (read or
+// write) is reported.  n == 0 is a valid zero-length block: any access reports.
+// START ALIGNMENT: operator new[] returns 16-byte aligned memory, so with off == 0 every input/output the real code sees
+// starts on an aligned address - a word-at-a-time fast path with a wrong alignment prologue would never be entered.  The
+// "align" sweep therefore re-runs the small-length part of every raw-pointer sweep with off = 1..7 (g_off_base; with
+// g_off_step != 0 successive buffers of one case get DIFFERENT offsets, so input and output alignments are decoupled).
+// The `off` bytes in front are filled with 0xA7 and must still hold it when the block is released (write before the start).
+extern unsigned g_off_base, g_off_step, g_off_cur;
+extern std::string g_align_note;          // appended to every violation text while an alignment configuration is active
+inline void align_case_begin() { g_off_cur = g_off_base; }
 struct Ex {
-  uint8_t *p; size_t n;
-  explicit Ex(size_t n_, int fill = 0xCC) : p(new uint8_t[n_]), n(n_) { if (n) memset(p, fill, n); }
-  Ex(const void *src, size_t n_) : p(new uint8_t[n_]), n(n_) { if (n) memcpy(p, src, n); }
-  ~Ex() { delete[] p; }
+  uint8_t *base, *p; size_t off, n;
+  void alloc(size_t n_) { off = g_off_cur & 7; g_off_cur = (g_off_cur + g_off_step) & 7; n = n_; base = new uint8_t[off + n]; if (off) memset(base, 0xA7, off); p = base + off; }
+  explicit Ex(size_t n_, int fill = 0xCC) { alloc(n_); if (n) memset(p, fill, n); }
+  Ex(const void *src, size_t n_) { alloc(n_); if (n) memcpy(p, src, n); }
+  ~Ex();
   Ex(const Ex &) = delete; Ex &operator=(const Ex &) = delete;
   char *c() { return (char *)p; }
 };
+
+inline Ex::~Ex() { for (size_t i = 0; i < off; i++) if (base[i] != 0xA7) { viol("write-before-the-start-of-a-buffer", std::string(g_op ? g_op : "?") + " wrote " + std::to_string(off - i) + " byte(s) before the buffer it was given"); break; } delete[] base; }
 
 // ---------------------------------------------------------------- input domains
 // 20-value boundary alphabet: NUL, SOH, TAB, SP, '%', '+', '/', '0', '9', '=', 'A', 'F', 'Z', 'a', 'f', 'z', DEL, 0x80, 0xC3, 0xFF
@@ -174,6 +186,20 @@ inline void for_enc_inputs(const std::function<void(const uint8_t *, size_t)> &f
     const size_t LL = L <= maxlen ? L : thorough() ? 65535 + (L - maxlen - 1) - 2 /* 65533..65535 */ : 254 + (L - maxlen);   // quick: + 255, 256, 257 (8-bit counter boundary)
     if (LL > 60000 && now_s() > g_deadline) { g_capped = true; break; }
     for (int p = 0; p < kPatterns; p++) { std::vector<uint8_t> v = pattern(p, LL); f(v.data(), LL); } }
+}
+// small-length domain used by the alignment sweep: all strings of length 0..1 over 0..255, length 2..3 over A20, lengths 4..maxL x 6 patterns;
+// every input starts a new case (buffer offsets restart from g_off_base)
+inline void for_small_inputs(size_t maxL, const std::function<void(const uint8_t *, size_t)> &f0) {
+  std::function<void(const uint8_t *, size_t)> f = [&](const uint8_t *p, size_t n) { if (!out_of_time()) { align_case_begin(); f0(p, n); } };
+  std::vector<uint8_t> full = alphabet("FULL"), a20 = alphabet("A20");
+  for (size_t len = 0; len <= 1 && !g_capped; len++) for_all_strings(full, len, 0, 1, f);
+  for (size_t len = 2; len <= 3 && !g_capped; len++) for_all_strings(a20, len, 0, 1, f);
+  for (size_t L = 4; L <= maxL && !g_capped; L++) for (int p = 0; p < kPatterns; p++) { std::vector<uint8_t> v = pattern(p, L); f(v.data(), L); }
+}
+inline void for_small_hostile(size_t maxlen, const std::function<void(const uint8_t *, size_t)> &f0) {   // all strings of length 0..maxlen over A20
+  std::function<void(const uint8_t *, size_t)> f = [&](const uint8_t *p, size_t n) { if (!out_of_time()) { align_case_begin(); f0(p, n); } };
+  std::vector<uint8_t> a20 = alphabet("A20");
+  for (size_t len = 0; len <= maxlen && !g_capped; len++) for_all_strings(a20, len, 0, 1, f);
 }
 // hostile decoder inputs derived from valid encodings: every truncation (proper prefix) of enc, and
 // (for |enc| <= 12) every single-byte substitution by an A20 value.
